@@ -131,6 +131,72 @@ def skipWhitespace : PM Unit := do
   let off ← skipWsLoop ((← get).v.rest.length + 2) 0
   advance off
 
+/-- Executable twin of `skipWsLoop`.  Two costs of the original are avoided: the fuel
+`fl.length + c` is kept as the pair `(fl, c)` and used up one list cell per iteration (so the caller
+passes the remaining input instead of its length), and `cur = rest.drop off` is carried along so
+that the request at offset `off` does not walk `off` cells of `rest` again (a whitespace run of
+`n` bytes costs `n` steps, not `n²/2`). -/
+def skipWsLoopFast : VBytes → Nat → VBytes → Nat → PM Nat
+  | [], c, _, off => skipWsLoop c off
+  | _ :: fl, c, cur, off => do
+    match ← reqAtCur cur off with
+    | some 32 => skipWsLoopFast fl c cur.tail (off + 1)
+    | some 10 =>
+      lineAtOffset (off + 1)
+      skipWsLoopFast fl c cur.tail (off + 1)
+    | _ => pure off
+
+theorem skipWsLoop_eq_fast (fl : VBytes) (c : Nat) : ∀ (off : Nat) (lr : LR),
+    skipWsLoop (fl.length + c) off lr = skipWsLoopFast fl c (lr.v.rest.drop off) off lr := by
+  induction fl with
+  | nil => intro off lr; simp only [List.length_nil, Nat.zero_add, skipWsLoopFast]
+  | cons b fl ih =>
+    intro off lr
+    have h : (b :: fl).length + c = (fl.length + c) + 1 := by
+      simp only [List.length_cons]; omega
+    rw [h, skipWsLoop, skipWsLoopFast, bind_apply, bind_apply, reqAt_apply, reqAtCur_apply,
+      ← View.demand_eq_demandCur, List.head?_drop]
+    simp only []
+    have hr : (lr.v.demand off).rest = lr.v.rest := by
+      rw [View.demand_eq_demandCur, View.demandCur_rest]
+    have hd : (lr.v.rest.drop off).tail =
+        ({ lr with v := lr.v.demand off } : LR).v.rest.drop (off + 1) := by
+      simp only [hr, List.tail_drop]
+    by_cases h32 : lr.v.rest[off]? = some 32
+    · rw [h32]; simp only []
+      rw [ih, hd]
+    · by_cases h10 : lr.v.rest[off]? = some 10
+      · rw [h10]; simp only []
+        rw [bind_apply, bind_apply]
+        cases hl : lineAtOffset (off + 1) { lr with v := lr.v.demand off } with
+        | mk r lr2 =>
+          cases r with
+          | error e => rfl
+          | ok a =>
+            simp only []
+            have := lineAtOffset_rest _ _ _ _ hl
+            rw [ih, hd, this]
+      · generalize lr.v.rest[off]? = r at h32 h10
+        split
+        · exact absurd rfl h32
+        · exact absurd rfl h10
+        · rfl
+
+/-- Executable form of `skipWhitespace`. -/
+def skipWhitespaceFast : PM Unit := do
+  let lr ← get
+  let off ← skipWsLoopFast lr.v.rest 2 lr.v.rest 0
+  advance off
+
+@[csimp] theorem skipWhitespace_eq_fast : @skipWhitespace = @skipWhitespaceFast := by
+  funext lr
+  show ((get : PM LR) >>= fun s => skipWsLoop (s.v.rest.length + 2) 0 >>= fun off => advance off) lr =
+    ((get : PM LR) >>= fun s => skipWsLoopFast s.v.rest 2 s.v.rest 0 >>= fun off => advance off) lr
+  rw [bind_apply, bind_apply]
+  show (skipWsLoop (lr.v.rest.length + 2) 0 >>= fun off => advance off) lr =
+    (skipWsLoopFast lr.v.rest 2 lr.v.rest 0 >>= fun off => advance off) lr
+  rw [bind_apply, bind_apply, skipWsLoop_eq_fast, List.drop_zero]
+
 /-- `uint`: `none` = Fallthrough, `some none` = `Res(Err(numeral))` (overflow or leading zero),
 `some (some v)` = value.  (`ascii_digits_multi` equals `ascii_digits`: property C13.) -/
 def uint : PM (Option (Option Nat)) := do
